@@ -133,16 +133,74 @@ def h_dense(A):
     return {"kind": "dense", "shape": list(A.shape), "data": [int(x) for x in A.flatten(order="F")]}
 
 
+SP_ORDERS = ["lex", "colex", "reversed", "lexrev", "shuffled", "shuffled"]
+
+
+def stored_order(subs):
+    """tag describing the order in which a sparse holder stores its subscripts"""
+    rows = [tuple(r) for r in subs]
+    if len(rows) < 2:
+        return "trivial"
+    if rows == sorted(rows):
+        return "lex"
+    if rows == sorted(rows, reverse=True):
+        return "lexrev"
+    key = lambda r: tuple(reversed(r))  # noqa: E731
+    if rows == sorted(rows, key=key):
+        return "colex"
+    if rows == sorted(rows, key=key, reverse=True):
+        return "colexrev"
+    return "shuffled"
+
+
+def sparse_orders_of(h):
+    if h["kind"] == "sparse":
+        return [stored_order(h["subs"])]
+    if h["kind"] == "sum":
+        return [o for p in h["parts"] for o in sparse_orders_of(p)]
+    return []
+
+
+def min_split_rule(shape):
+    """the documented rule of tensor.min_split: modes go left while that lowers m_left + m_right"""
+    m_left, m_right, idx_min = shape[0], gen.numel(shape[1:]), 0
+    for idx in range(1, len(shape)):
+        m_right //= shape[idx]
+        if m_left < m_right:
+            idx_min = idx
+            m_left *= shape[idx]
+        else:
+            break
+    return idx_min
+
+
+def shapes_by_split(N, max_cells=200, smax=7):
+    """{split index: [shapes]} for N-way shapes with extents 2..smax, enumerated in a fixed order"""
+    out = {}
+    for shp in itertools.product(range(2, smax + 1), repeat=N):
+        if gen.numel(shp) <= max_cells:
+            out.setdefault(min_split_rule(list(shp)), []).append(list(shp))
+    return out
+
+
 def h_sparse(A, rng=None, order=None):
     A = np.asarray(A)
     subs = [list(map(int, s)) for s in np.argwhere(A != 0)]
-    order = order or (rng.choice(["sorted", "reversed", "shuffled"]) if rng else "sorted")
-    if order == "sorted":
+    # stored order: lexicographic rows (what np.unique / from_aggregator produce), first-index-fastest
+    # (what find() of a dense tensor produces), either of them reversed, or shuffled
+    order = order or (rng.choice(SP_ORDERS) if rng else "lex")
+    if order == "lex":
+        subs.sort()
+    elif order in ("sorted", "colex"):
         subs.sort(key=lambda r: list(reversed(r)))
     elif order == "reversed":
         subs.sort(key=lambda r: list(reversed(r)), reverse=True)
+    elif order == "lexrev":
+        subs.sort(reverse=True)
     elif rng:
         rng.shuffle(subs)
+        if len(subs) > 1 and subs == sorted(subs):   # a shuffle that came out sorted is not a shuffle
+            subs[0], subs[-1] = subs[-1], subs[0]
     return {"kind": "sparse", "shape": list(A.shape), "subs": subs, "vals": [int(A[tuple(s)]) for s in subs]}
 
 
@@ -277,9 +335,12 @@ def canon(r):
     if isinstance(r, ttb.sptensor):
         subs = np.asarray(r.subs)
         vals = np.asarray(r.vals)
-        return sort_sparse({"shape": [int(s) for s in r.shape],
-                            "subs": [] if subs.size == 0 else jval(subs.astype(int)),
-                            "vals": [] if vals.size == 0 else jval(vals.reshape(-1))})
+        out = sort_sparse({"shape": [int(s) for s in r.shape],
+                           "subs": [] if subs.size == 0 else jval(subs.astype(int)),
+                           "vals": [] if vals.size == 0 else jval(vals.reshape(-1))})
+        if gen.numel(out["shape"]) <= 4096:   # what the implementation itself reads back from the result
+            out["_full"] = jval(np.asarray(r.full().data).flatten(order="F"))
+        return out
     if isinstance(r, ttb.ktensor):
         return {"kind": "kruskal", "weights": jval(np.asarray(r.weights).reshape(-1)),
                 "factors": [jval(np.asarray(f)) for f in r.factor_matrices]}
@@ -299,6 +360,30 @@ def canon(r):
     if isinstance(r, list):
         return [canon(x) for x in r]
     raise TypeError(f"canon: {type(r)}")
+
+
+def strip_reads(got):
+    """remove the read-back side channel from a canonical implementation result; return the complaints:
+    a sparse result must store every subscript once and expand to the sum of its stored entries"""
+    bad = []
+    if isinstance(got, list):
+        for g in got:
+            bad += strip_reads(g)
+    elif isinstance(got, dict):
+        if got.get("kind") == "sparse":
+            rows = [tuple(r) for r in got["subs"]]
+            if len(set(rows)) != len(rows):
+                bad.append("a sparse result stores the same subscript more than once")
+            full = got.pop("_full", None)
+            if full is not None:
+                shp, vals = value_of({k: v for k, v in got.items()})
+                from harness.lib import jnum, num_eq
+                if len(vals) != len(full) or not all(num_eq(a, jnum(b)) for a, b in zip(full, vals)):
+                    bad.append("full() of a sparse result differs from the sum of its stored entries")
+        elif got.get("kind") == "sum":
+            for p_ in got["parts"]:
+                bad += strip_reads(p_)
+    return bad
 
 
 def canon_model(m):
@@ -584,6 +669,11 @@ class C02Family(Family):
             return Verdict("violation", f"{op} raised on a valid request: {impl.get('exc')}: {impl.get('msg')}",
                            impl, model, spec, tags + ["raised"])
         got = impl["ok"]
+        for o in sorted(set(sparse_orders_of(c["X"]))) if "X" in c else []:
+            tags.append(f"stored:{o}")
+        reads_bad = strip_reads(got)
+        if reads_bad:
+            return Verdict("violation", f"{op} on a {kind} holder: {reads_bad[0]}", impl, model, spec, tags + ["bad-sparse-result"])
         mval = canon_model(model["ok"]) if not m_rej else None
         sval = canon_model(spec)
         if op == "norm":
